@@ -15,6 +15,16 @@ Lemma error_calls :
   branches_with OnError = ["et:2048"; "et:34525"; "proto:1"; "proto:17"; "proto:58"; "proto:6"; "top"].
 Proof. vm_compute. reflexivity. Qed.
 
+(* the steady-state helpers: echoNotify (whatever the waiter table holds) and the read-locked fast path of
+   findOrCreateHostWithLock call nothing that can allocate; hostOnline calls onlineTransition only (which runs its body
+   - the log line - only for a host that is not yet online); the slow path of findOrCreateHostWithLock and
+   onlineTransition are where the allocations of a new / offline source are *)
+Lemma steady_helpers_alloc_free :
+  helper_alloc_free "fn:echoNotify" = true /\ helper_alloc_free "fn:findOrCreateHostWithLock.fast" = true /\
+  helper_alloc_free "fn:findOrCreateHostWithLock" = false /\ helper_alloc_free "fn:onlineTransition" = false /\
+  calls_of "fn:hostOnline" parse_calls = Some [".Lock"; ".Unlock"; ".onlineTransition"].
+Proof. repeat split; vm_compute; reflexivity. Qed.
+
 (* every other callee of every branch is allocation-free by kind: nothing else can allocate on any path *)
 Lemma every_callee_classified :
   forallb (fun b => forallb (fun n => match callee_kind n with
